@@ -469,6 +469,13 @@ fn run_supplied(c: &SuppliedCase) -> CaseResult {
     let ctx = format!("tab width {:?}, first message {:?}, supplied message {:?}, way {how}, length {}, script {:?}", c.tab_width, c.initial, c.supplied, c.len, c.script);
     let mut want_pos = c.len as u64;
     let probe = pb.clone();
+    // the bar has no terminal while its iterator / stream runs dry (another handle keeps it alive): it is
+    // completed all the same, and shows its final state once it gets the terminal back
+    let hidden_at_end = matches!(how, 4 | 5) && c.len % 3 == 2;
+    if hidden_at_end {
+        pb.tick();
+        pb.set_draw_target(ProgressDrawTarget::hidden());
+    }
     catch(|| -> Result<(), Fail> {
         match how {
             0 => pb.finish_with_message(c.supplied.clone()),
@@ -523,6 +530,11 @@ fn run_supplied(c: &SuppliedCase) -> CaseResult {
         ensure!(probe.is_finished(), "not_finished", "{ctx}: is_finished() is false afterwards");
         ensure!(probe.position() == want_pos, "final_position", "{ctx}: position() = {}, expected {want_pos}", probe.position());
         ensure!(probe.message() == want_msg, "final_message", "{ctx}: message() = {:?}, expected the supplied message {want_msg:?}", probe.message());
+    }
+    if hidden_at_end {
+        probe.set_draw_target(ProgressDrawTarget::term_like(vt.boxed()));
+        probe.tick();
+        v.label("ended_while_the_bar_had_no_terminal");
     }
     drop(probe);
     let lines = vt.last_frame_lines().map_err(|e| Fail::new("harness", e))?;
@@ -792,7 +804,7 @@ pub fn property() -> Property {
                 cases: |t| t.pick(12_000, 600_000),
                 run: run_supplied,
                 signature: no_signature,
-                essential: &["supplied_message_with_tab_at_non_default_width", "first_message_without_tab", "stream_not_ready_in_between", "finish_with_message", "abandon_with_message", "finish_using_style", "drop_last_handle", "iterator_exhausted", "stream_ended"],
+                essential: &["supplied_message_with_tab_at_non_default_width", "first_message_without_tab", "stream_not_ready_in_between", "finish_with_message", "abandon_with_message", "finish_using_style", "drop_last_handle", "iterator_exhausted", "stream_ended", "ended_while_the_bar_had_no_terminal"],
                 workers: w,
                 decode: None,
             }),
